@@ -90,6 +90,12 @@ func C09(p *core.Program, r *core.Report) {
 			r.Add("W1", key, p.Pos(fn.Pos()), false, "no text rendering found")
 		}
 	}
+	// W5: the word sequences of the two views agree only if the HTML view does not glue words the
+	// text view separates (shared with C02-O10)
+	checkNoTrimmedConcatenation(p, r, "W5")
+	// W6: the word counters split where the text view splits
+	checkWordCounterSplits(p, r, "W6")
+
 	r.Floor("W1", 7)
 
 	// ---- W2
@@ -286,4 +292,48 @@ func viewExclusiveRemovals(p *core.Program, fn *ssa.Function, src string) []stri
 		}
 	}
 	return hits
+}
+
+// checkWordCounterSplits (C09-W6): WordCount is counted on the text of the source nodes, the words
+// of Result.Text are what strings.Fields (unicode.IsSpace) leaves of the rendered text. The two
+// agree only if the counters split words at every character that Fields splits at. The word
+// matcher patterns are constants of package stringutil; they are compiled here (no code of the
+// repository runs) and asked about "ab<r>cd" for every white-space character r of Unicode: each
+// must find two words (U+1680 is left out: the letter range of the original patterns contains it; Go's \S, unlike the JavaScript \S of the original, is ASCII-only: a
+// no-break space inside "5 000 EUR" made one word of three).
+func checkWordCounterSplits(p *core.Program, r *core.Report, rule string) {
+	spaces := []rune{'\t', '\n', '\v', '\f', '\r', ' ', 0x85, 0xA0, 0x2000, 0x2001, 0x2002, 0x2003, 0x2004, 0x2005, 0x2006, 0x2007, 0x2008, 0x2009, 0x200A, 0x2028, 0x2029, 0x202F, 0x205F, 0x3000}
+	c := core.NewCanon(p)
+	seen := map[string]bool{}
+	for _, fn := range p.ModFunctions(false) {
+		if fn.Name() != "Count" || core.FnPkgPath(fn) != core.ExpandKey("mod/internal/stringutil") {
+			continue
+		}
+		for _, call := range core.Calls(fn, func(ci ssa.CallInstruction) bool {
+			return core.IsCallTo(ci, "(*regexp.Regexp).FindAllString", "(*regexp.Regexp).FindAllStringIndex")
+		}) {
+			rx := c.Of(call.Common().Args[0])
+			if !strings.HasPrefix(rx, "rx‹") || seen[rx] {
+				continue
+			}
+			seen[rx] = true
+			pat := strings.TrimSuffix(strings.TrimPrefix(rx, "rx‹"), "›")
+			re, err := regexp.Compile(pat)
+			if err != nil {
+				r.Undecided(rule, "word matcher "+pat, err.Error())
+				continue
+			}
+			if len(re.FindAllString("ab cd", -1)) != 2 {
+				continue // not a matcher of blank-separated words (the per-character CJK matcher)
+			}
+			var bad []string
+			for _, sp := range spaces {
+				if n := len(re.FindAllString("ab"+string(sp)+"cd", -1)); n != 2 {
+					bad = append(bad, fmt.Sprintf("U+%04X", sp))
+				}
+			}
+			r.Add(rule, "word matcher "+pat+" splits at every white-space character the text view splits at", p.Pos(call.Pos()), len(bad) == 0, "one word instead of two around: "+strings.Join(bad, " "))
+		}
+	}
+	r.Floor(rule, 2)
 }
